@@ -165,6 +165,14 @@ def lawJudge (op : String) (args : List Sexp) (impl : Sexp) : Bool × String :=
     else if kind == "E" && !((decNames nr).all expected.contains) then (false, "law:substituted-inputs")
     else if !sameLen [decBits br, decBits ba] then (false, "law:samples")
     else (decBits br == decBits ba, "law:value-at-composed-assignment")
+  | "law.csv", list [atom "L", ins, cols, vd, list obs] =>
+    -- C16 (`faithful`): the table's inputs are the column names, sorted; every sampled record's output
+    -- is the table's value at that record's input combination
+    if decNames ins != sortDedup (decNames cols) then (false, "law:csv-inputs-are-the-sorted-column-names")
+    else if !decBool vd then (false, "law:csv-table-complete")
+    else (!obs.isEmpty && obs.all fun
+      | list [o, v] => decBool o == decBool v
+      | _ => false, "law:csv-record-disagrees-with-table")
   | "law.nnf", list [atom "L", r, na, br, ba]
   | "law.cnf", list [atom "L", r, na, br, ba]
   | "law.dnf", list [atom "L", r, na, br, ba] =>
